@@ -394,3 +394,23 @@ def probe_wgpu_validate(out):
             body += '            v.push(json!({"ev": "wgpu.result", "call": "create_render_pipeline", "vertex": %s, "fragment": %s, "err": err}));\n        }\n' % (rust_str(ve), rust_str(fe))
         body += "    }\n"
     return HEAD + body + TAIL
+
+
+# ------------------------------------------------------------------ C09: trait implementations as rustc resolves them
+IMPL_TRAITS = [("Debug", "std::fmt::Debug"), ("Clone", "Clone"), ("Copy", "Copy"), ("PartialEq", "PartialEq"), ("bytemuck::Pod", "bytemuck::Pod"),
+               ("bytemuck::Zeroable", "bytemuck::Zeroable"), ("encase::ShaderType", "encase::ShaderType"), ("serde::Serialize", "serde::Serialize"),
+               ("serde::Deserialize", "serde::de::DeserializeOwned")]
+
+
+def probe_impls(out):
+    """autoref-free specialisation: `<W<T>>::V` resolves to the inherent const iff T satisfies the bound"""
+    body = ""
+    pre = "struct W<T>(std::marker::PhantomData<T>);\n"
+    for i, (label, bound) in enumerate(IMPL_TRAITS):
+        pre += "trait No%d { const V%d: bool = false; }\nimpl<T> No%d for W<T> {}\nimpl<T: %s> W<T> { const V%d: bool = true; }\n" % (i, i, i, bound, i)
+    for st in out.get("structs", []):
+        n = st["name"]
+        flags = ", ".join('("%s", <W<m::%s>>::V%d)' % (label, n, i) for i, (label, _) in enumerate(IMPL_TRAITS))
+        body += "    {\n        let all: Vec<(&str, bool)> = vec![%s];\n        let impls: Vec<&str> = all.iter().filter(|x| x.1).map(|x| x.0).collect();\n" % flags
+        body += '        v.push(json!({"ev": "rt.impls", "struct": %s, "impls": impls}));\n    }\n' % rust_str(n)
+    return pre + HEAD + body + TAIL
